@@ -49,6 +49,10 @@ impl<T, E> Sender<T, E> {
         Ok(())
     }
 
+    pub fn is_pubsub(&self) -> bool {
+        matches!(self, Self::Pubsub(_))
+    }
+
     pub fn close_channel(&mut self) {
         match self {
             Self::Pubsub(ref mut s) => s.close_channel(),
